@@ -59,10 +59,20 @@ def check_queues(ctx, ex):
         par = parents(fn)
         # aliases: local = self._epr_create_requests
         alias: Dict[str, Set[str]] = {}
+        def tables_of(v):
+            # self.<table>, or a choice between the two tables (`A if role else B`)
+            if v is not None and A.is_self_attr(v) and v.attr in REQ:
+                return {v.attr}
+            if isinstance(v, ast.IfExp):
+                a_, b_ = tables_of(v.body), tables_of(v.orelse)
+                if a_ and b_:
+                    return a_ | b_
+            return set()
+
         for k, vs in A.assigned_names(fn).items():
             for v in vs:
-                if v is not None and A.is_self_attr(v) and v.attr in REQ:
-                    alias.setdefault(k, set()).add(v.attr)
+                if tables_of(v):
+                    alias.setdefault(k, set()).update(tables_of(v))
         for n in A.body_nodes(fn):
             which = None
             if A.is_self_attr(n) and n.attr in REQ:
@@ -72,6 +82,9 @@ def check_queues(ctx, ex):
             if which is None:
                 continue
             p = par.get(id(n))
+            # the table is one arm of a choice between the two tables: what is done with the chosen table is what is judged
+            while isinstance(p, ast.IfExp) and n is not p.test and tables_of(p):
+                n, p = p, par.get(id(p))
             if isinstance(p, ast.Assign) and n in [p.value]:
                 continue  # the aliasing assignment itself
             uses += 1
@@ -233,10 +246,7 @@ def check_keys(ctx, ex):
         got = [A.norm(A.expand(e, defs)) for e in key.elts]
     ctx.check("C12.K", "_extract_epr_info:key", got == [f"{rp}.remote_node_id", f"{rp}.purpose_id"],
               f"the consumer builds the request key as {got}; expected (response.remote_node_id, response.purpose_id)", repo.loc(m, fn), sample={"consumer key": got})
-    # the dictionary is indexed with that key and the oldest request is taken
-    peeks = [A.norm(A.expand(n, defs)) for n in A.body_nodes(fn) if isinstance(n, ast.Subscript) and isinstance(n.slice, ast.Constant) and n.slice.value == 0]
-    ok = any("requests[" in p and "[0]" in p for p in peeks)
-    ctx.check("C12.K", "_extract_epr_info:oldest-request-under-key", ok, "the consumer does not take requests[request_key][0]", repo.loc(m, fn), trivial=True)
+    # (the oldest request under that key is what is returned: decided below, by execution, together with the role selection)
     # role selection: executed abstractly (nqsa/circuit.py) for a response of either directionality, on an executor that has one
     # outstanding request under the response's key in each of the two dictionaries: the request returned comes from the create
     # dictionary exactly when this node is the creator (as get_creator_node_id decides), and the role flag returned says the same
@@ -255,9 +265,14 @@ def check_keys(ctx, ex):
         gcn = qc.functions.get("get_creator_node_id")
         for flag in (0, 1):
             created, received = C.Obj(None, {"tot_pairs": 3, "pairs_left": 2, "tag": "create"}), C.Obj(None, {"tot_pairs": 5, "pairs_left": 1, "tag": "recv"})
+            later_c, later_r = C.Obj(None, {"tot_pairs": 1, "pairs_left": 1, "tag": "create, later"}), C.Obj(None, {"tot_pairs": 1, "pairs_left": 1, "tag": "recv, later"})
+            other = C.Obj(None, {"tot_pairs": 1, "pairs_left": 1, "tag": "other key"})
             resp = C.Obj(None, {"directionality_flag": flag, "remote_node_id": 2, "purpose_id": 7})
-            o = C.object_from_init(repo, ex, {"node_id": 11, "_logger": _Log(), "_epr_create_requests": {(2, 7): [created]}, "_epr_recv_requests": {(2, 7): [received]}}, kind="self")
+            o = C.object_from_init(repo, ex, {"node_id": 11, "_logger": _Log(), "_epr_create_requests": {(7, 2): [other], (2, 7): [created, later_c], (2, 8): [other]},
+                                              "_epr_recv_requests": {(7, 2): [other], (2, 7): [received, later_r], (3, 7): [other]}}, kind="self")
             out = C.Interp(repo, ctx.ev, C.Scenario(), ex).call_function(m, fn, [resp], {}, self_obj=o)
+            if isinstance(out, tuple) and len(out) == 4 and out[3] != (2, 7):
+                role["key"] = out[3]
             creator = C.Interp(repo, ctx.ev, C.Scenario(), None).call_function(qc, gcn, [11, resp], {}) if gcn is not None else None
             we_create = creator == 11
             if isinstance(out, tuple) and len(out) == 4:
@@ -271,6 +286,10 @@ def check_keys(ctx, ex):
         role = None
     exp = {True: (True, "_epr_create_requests"), False: (False, "_epr_recv_requests")}
     if role is not None:
+        ctx.check("C12.K", "_extract_epr_info:oldest-request-under-key", "key" not in role and all(v_[1] in ("_epr_create_requests", "_epr_recv_requests") for v_ in role.values() if isinstance(v_, tuple)),
+                  f"with two requests outstanding under (remote node 2, purpose 7) and others under neighbouring keys, the consumer takes {role}: not the oldest request under the response's own key",
+                  repo.loc(m, fn), trivial=True)
+        role.pop("key", None)
         ctx.check("C12.D", "_extract_epr_info:role-selects-dictionary", role == exp,
                   f"when the creator is this node: {role.get(True)}, otherwise: {role.get(False)}; expected (True, create requests) / (False, recv requests)", repo.loc(m, fn),
                   sample={"creator==self": role.get(True), "else": role.get(False)})
@@ -280,38 +299,32 @@ def check_keys(ctx, ex):
     if hl is None:
         raise AnalysisError("_handle_last_epr_pair not found")
     ctx.fn("Executor._handle_last_epr_pair")
-    # the function is executed abstractly for (pairs left, creator?) and the pops it performs are recorded
-    pcmd, pcre, pkey = A.param_names(hl)[1:4]
-    CRE, RCV = G.Sym("_epr_create_requests"), G.Sym("_epr_recv_requests")
+    # executed by the checker's interpreter for (pairs left, creator?): with two requests under the key in both tables, the head of
+    # this role's queue under this key - and nothing else - is removed exactly when no pairs are left
     retire = {}
-    pops_when_left = 0
+    guard_ok = True
     try:
         for left in (0, 1, 2):
             for creator in (True, False):
-                got = []
-
-                def on_call(c, env_, got=got):
-                    if isinstance(c.func, ast.Attribute) and c.func.attr == "pop" and isinstance(c.func.value, ast.Subscript):
-                        try:
-                            base = G.peval(c.func.value.value, env_)
-                        except Unknown:
-                            base = None
-                        idx = [A.norm(a_) for a_ in c.args]
-                        got.append((base.typename if isinstance(base, G.Sym) else None, A.norm(c.func.value.slice), idx))
-
-                env = {f"{pcmd}.pairs_left": left, pcre: creator, "self._epr_create_requests": CRE, "self._epr_recv_requests": RCV}
-                G.run_block(A.strip_docstring(hl.body), env, on_call)
+                tabs = {"_epr_create_requests": {(2, 7): ["c-old", "c-new"], (7, 2): ["c-other"]}, "_epr_recv_requests": {(2, 7): ["r-old", "r-new"], (7, 2): ["r-other"]}}
+                o = C.object_from_init(repo, ex, {"node_id": 11, "_logger": _Log(), **tabs}, kind="self")
+                C.Interp(repo, ctx.ev, C.Scenario(), ex).call_function(m, hl, [C.Obj(None, {"pairs_left": left, "tot_pairs": 2}), creator, (2, 7)], {}, self_obj=o)
+                gone = [(t_, k_, x_) for t_, ref in (("_epr_create_requests", {(2, 7): ["c-old", "c-new"], (7, 2): ["c-other"]}), ("_epr_recv_requests", {(2, 7): ["r-old", "r-new"], (7, 2): ["r-other"]}))
+                        for k_, lst in ref.items() for x_ in lst if x_ not in o.fields[t_].get(k_, [])]
                 if left == 0:
-                    retire[creator] = (got[0][0], got[0][1]) if len(got) == 1 and got[0][2] == ["0"] else tuple(got)
-                else:
-                    pops_when_left += len(got)
-    except Unknown as ex_:
+                    retire[creator] = (gone[0][0], "request_key" if gone[0][1] == (2, 7) and gone[0][2].endswith("-old") else f"{gone[0][1]}:{gone[0][2]}") if len(gone) == 1 else tuple(gone)
+                elif gone:
+                    guard_ok = False
+    except C.EvalRaise as ex_:
         retire = {"error": str(ex_)}
-    guard_ok = pops_when_left == 0 and all(isinstance(v_, tuple) and len(v_) == 2 and isinstance(v_[0], str) for v_ in retire.values()) and len(retire) == 2
-    retire = {k_: (v_[0], "request_key" if v_[1] == pkey else v_[1]) if isinstance(v_, tuple) and len(v_) == 2 else v_ for k_, v_ in retire.items()}
-    ctx.check("C12.D", "_handle_last_epr_pair:role-selects-same-dictionary", retire == {True: ("_epr_create_requests", "request_key"), False: ("_epr_recv_requests", "request_key")},
-              f"retirement pops {retire}; expected creator -> create requests, receiver -> recv requests, under the same request key", repo.loc(m, hl), sample={"retire": retire})
-    ctx.check("C12.A", "_handle_last_epr_pair:retire-iff-no-pairs-left", guard_ok, "the request is not retired exactly when pairs_left == 0", repo.loc(m, hl))
+    except AnalysisError as ex_:
+        ctx.error("C12.D", f"_handle_last_epr_pair cannot be evaluated: {ex_}")
+        retire = None
+    if retire is not None:
+        guard_ok = guard_ok and len(retire) == 2 and all(isinstance(v_, tuple) and len(v_) == 2 and isinstance(v_[0], str) for v_ in retire.values())
+        ctx.check("C12.D", "_handle_last_epr_pair:role-selects-same-dictionary", retire == {True: ("_epr_create_requests", "request_key"), False: ("_epr_recv_requests", "request_key")},
+                  f"retirement removes {retire}; expected creator -> the oldest create request, receiver -> the oldest recv request, under the same request key", repo.loc(m, hl), sample={"retire": retire})
+        ctx.check("C12.A", "_handle_last_epr_pair:retire-iff-no-pairs-left", guard_ok, "the request is not retired exactly when pairs_left == 0", repo.loc(m, hl))
     # get_creator_node_id
     qc = repo.module("netqasm.qlink_compat")
     g = qc.functions.get("get_creator_node_id")
@@ -443,10 +456,27 @@ def check_busy(ctx, ex, rule="C12.B"):
                 guarded = va is not None and A.norm(kw.get("virtual_address", ast.Constant(value=0))) == A.norm(va) and A.norm(kw.get("app_id", ast.Constant(value=0))) == "app_id"
     ctx.check(rule, "_handle_epr_ok_k_response:defer-when-virtual-qubit-busy", guarded,
               "the keep-response allocates without first returning False when _has_virtual_address(app_id, <same virtual address>) holds: a still-allocated virtual qubit would be overwritten (or the response lost)", repo.loc(m, alloc[0]))
-    rets = A.returns(hv)
-    last = rets[-1].value if rets else None
-    ok = last is not None and A.norm(last).endswith("isnotNone") and "unit_module[virtual_address]" in A.norm(last)
-    ctx.check(rule, "_has_virtual_address:slot-occupied-test", ok, f"_has_virtual_address ends with `{src(last) if last is not None else None}`; expected unit_module[virtual_address] is not None", repo.loc(m, hv))
+    # _has_virtual_address executed (checker's interpreter): true exactly for an address inside the application's unit module whose
+    # slot holds a physical address - 0 included; false for a free slot, an address outside the module, an application without one
+    from .. import circuit as C
+    got, want = [], []
+    try:
+        for app, mods in ((4, {4: [None, 5, None, 0]}), (4, {}), (4, {9: [1, 1, 1, 1]})):
+            for va_ in (-1, 0, 1, 2, 3, 4):
+                o = C.object_from_init(repo, ex, {"_qubit_unit_modules": {k_: list(v_) for k_, v_ in mods.items()}}, kind="self")
+                try:
+                    r_ = C.Interp(repo, ctx.ev, C.Scenario(), ex).call_function(m, hv, [], {"app_id": app, "virtual_address": va_}, self_obj=o)
+                except C.EvalRaise as ex_:
+                    r_ = f"raises {ex_.exc_name}"
+                mod_ = mods.get(app)
+                got.append(r_)
+                want.append(bool(mod_ is not None and 0 <= va_ < len(mod_) and mod_[va_] is not None))
+        ok = all(isinstance(g_, bool) and g_ == w_ for g_, w_ in zip(got, want))
+        ctx.check(rule, "_has_virtual_address:slot-occupied-test", ok,
+                  f"_has_virtual_address over (module [None, 5, None, 0] / no module / another application's module) x addresses -1..4 gives {got}, expected {want}: "
+                  "a virtual qubit that is still mapped (also to physical qubit 0) must be reported busy, a free or non-existent one must not", repo.loc(m, hv))
+    except AnalysisError as ex_:
+        ctx.error(rule, f"_has_virtual_address cannot be evaluated: {ex_}")
     # the keep-response handler is executed abstractly (nqsa/circuit.py): the virtual qubit it maps is the one stored at position
     # <pair index> of the request's own qubit array (read for the request's application), the physical one is the delivered one;
     # with that virtual qubit still allocated nothing is mapped and the response is reported as not handled
